@@ -5,7 +5,10 @@
 use cfg_if::cfg_if;
 
 cfg_if! {
-    if #[cfg(feature = "pmtree-ft")] {
+    if #[cfg(feature = "fullmerkletree")] {
+        use crate::hashers::{PoseidonHash};
+        use utils::merkle_tree::*;
+    } else if #[cfg(feature = "pmtree-ft")] {
         use crate::pm_tree_adapter::*;
     } else {
         use crate::hashers::{PoseidonHash};
